@@ -38,8 +38,8 @@ var (
 func fileExists(p string) bool { _, err := os.Stat(p); return err == nil }
 
 const (
-	c12VarA       = "A:five-formats-from-one-parsed-configuration"
-	c12VarB       = "B:independently-parsed-configurations"
+	c12VarA = "A:five-formats-from-one-parsed-configuration"
+	c12VarB = "B:independently-parsed-configurations"
 )
 
 // c12VariantA packages the five formats concurrently from ONE parsed
